@@ -5,6 +5,6 @@ set -u
 D=/verif/seeded/$1; P=$2; shift 2
 git -C /repo apply "$D/patch.diff" || { echo "patch does not apply"; exit 3; }
 /verif/bin/gosmt check -prop "$P" -tier "${TIER:-quick}" -harness /verif/harness -known /verif/known_findings.json -replaydir /tmp/seed_replay -out /tmp/seed_evidence_$P.json "$@" 2>&1 | grep -E "finding|VIOLATION|INCONCL|harnesses held" | cut -c1-260
-/verif/bin/gosmt check -prop "$P" -tier "${TIER:-quick}" -harness /verif/harness_default -tags "" -known /verif/known_findings.json -replaydir /tmp/seed_replay -out /tmp/seed_evidence_${P}_default.json "$@" 2>&1 | grep -E "finding|VIOLATION|INCONCL|harnesses held" | cut -c1-260
+/verif/bin/gosmt check -prop "$P" -tier "${TIER:-quick}" -harness /verif/harness_default -tags "math_big_pure_go,appengine" -known /verif/known_findings.json -replaydir /tmp/seed_replay -out /tmp/seed_evidence_${P}_default.json "$@" 2>&1 | grep -E "finding|VIOLATION|INCONCL|harnesses held" | cut -c1-260
 git -C /repo checkout -- . 
 git -C /repo status --short | grep -v "^??"
